@@ -173,6 +173,14 @@ pub fn check(h: &History, rep: &mut EpReport, drained: bool) -> LeaseStats {
                     }
                 }
                 if next.vt + MS <= end_lo {
+                    if !ts.iter().any(|t| t.secs.is_some()) {
+                        // neither modified nor nacked: redelivered before its plain ack deadline
+                        rep.viol(
+                            "C04",
+                            "C04:early:conc",
+                            format!("{} on {}: handed out at {} ms with a {} s deadline, never modified or nacked, redelivered at {} ms", tag, short(sub), d.vt / MS, si.a / SEC, next.vt / MS),
+                        );
+                    }
                     rep.viol(
                         "C03",
                         "C03:X3:lease-overlap",
